@@ -366,6 +366,10 @@ def write_evidence(prop, tier, seed, hs, results, violations, known_hit, inconcl
     os.makedirs(evdir, exist_ok=True)
     with open(os.path.join(evdir, prop + ".json"), "w") as f:
         json.dump(ev, f, indent=1, default=str)
+    if tier == "thorough":          # kept next to the quick evidence, which the next quick run overwrites
+        os.makedirs(os.path.join(evdir, "thorough"), exist_ok=True)
+        with open(os.path.join(evdir, "thorough", prop + ".json"), "w") as f:
+            json.dump(ev, f, indent=1, default=str)
 
 
 def main(argv=None):
